@@ -34,6 +34,14 @@ def _execute(mod, script):
     """Run one script; classify exceptions: raised by the harness → harness error."""
     try:
         res = mod.execute(script)
+    except Exception as e:
+        if type(e).__name__ != 'WorldNotBuilt':
+            raise
+        # the simulated world could not be set up because the code under test refused a valid starting state (e.g. the
+        # store would not take the chain the node starts with): no verdict from this run, and no harness error either
+        res = Result()
+        res.bump('world_not_built')
+        res.digest = 'world-not-built'
     except Deadlock as e:
         # raised by the stand-in for threading.Lock: code under test acquired a lock that is held and that nobody can
         # release any more (every handler of a node runs to completion on one thread) - the real thread blocks for good
